@@ -62,7 +62,17 @@ fn generate(cli: &Cli) -> Vec<Case> {
                                 // control characters, separators, non-ASCII: the name is the client's to choose
                                 claimed.name = mk::hostile_name(&mut rng);
                             }
-                            let authed = mk::ident(&mut rng, "vouched");
+                            let mut authed = mk::ident(&mut rng, "vouched");
+                            // verdicts that name "nobody": still the service's answer, never the claim
+                            match rng.below(12) {
+                                0 => authed.uuid = 0,
+                                1 => authed.name = String::new(),
+                                2 => {
+                                    authed.uuid = 0;
+                                    authed.name = String::new();
+                                }
+                                _ => {}
+                            }
                             let np = rng.below(4) as usize;
                             let authed_props = mk::props(&mut rng, np);
                             let cookie_id = mk::ident(&mut rng, "cookie");
